@@ -32,7 +32,17 @@ for name in sorted(os.listdir('seeded')):
     ok = all(' rc=1' in x for x in res if not x.startswith('(own'))
     rows.append((name, 'caught' if ok else 'NOT CAUGHT BY ALL', '; '.join(res)))
     print(rows[-1], flush=True)
-json.dump(rows, open('/verif/seeded/REGRESSION.json', 'w'), indent=1)
+# a filtered run updates its rows and keeps the others
+allrows = rows
+if only and os.path.exists('/verif/seeded/REGRESSION.json'):
+    prev = {r[0]: r for r in json.load(open('/verif/seeded/REGRESSION.json'))}
+    prev.update({r[0]: list(r) for r in rows})
+    allrows = [prev[k] for k in sorted(prev)]
+json.dump(allrows, open('/verif/seeded/REGRESSION.json', 'w'), indent=1)
+# leave the evidence of the unchanged tree behind
+if os.environ.get('SEED_REFRESH', '1') == '1':
+    for p in sorted({c.split()[0] for r in rows for c in r[2].replace('(own property: ', '').split('; ') if c[:1] == 'C'}):
+        subprocess.run(['./check', p, 'quick'], capture_output=True, text=True)
 bad = [r for r in rows if r[1] != 'caught']
 print('%d seeds, %d not caught as recorded' % (len(rows), len(bad)))
 sys.exit(1 if bad else 0)
